@@ -3,8 +3,9 @@
 from ..r_protocol import run_protocol
 from ..r_rings import rule_one_graph, rule_ring_marks
 from ..r_hygiene import rule_hygiene as _rule_hygiene
+from ..r_rings import rule_ring_mark_is_bool as _rule_mark_bool
 from ..r_rings import rule_hybridization_table as _rule_hyb
-from ..r_rings import rule_simple_cycle_guard as _rule_simple
+from ..r_rings import rule_simple_cycle_guard as _rule_simple, rule_pid_replace_or_extend as _rule_pid
 
 LEVEL = 'other'
 
@@ -16,5 +17,7 @@ def run(ck, repo):
     # marks are refreshed and ring caches dropped after every topology write
     run_protocol(ck, repo, 'C06.D2-refreshed', only_dims={'LABELS', 'KEEP'})
     _rule_hygiene(ck, repo, 'C06.H-dataflow-hygiene', 'C06')
+    _rule_mark_bool(ck, repo, 'C06.D2-ring-mark-bool')
     _rule_hyb(ck, repo, 'C06.D4-hybridization')
     _rule_simple(ck, repo, 'C06.D5-simple-cycles')
+    _rule_pid(ck, repo, 'C06.D5-pid-tables')
